@@ -241,6 +241,9 @@ func (s *vfSession) setupPair(t *vfTopo, ca, cb vfSideCfg, aControlling, bContro
 	if err = s.B.gather(); err != nil {
 		return err
 	}
+	if s.beforeStart != nil {
+		s.beforeStart() // e.g. remote candidates signalled before Dial/Accept
+	}
 	if err = s.A.start(aControlling, s.B.ufrag, s.B.pwd); err != nil {
 		return err
 	}
@@ -387,27 +390,52 @@ func vfC01Run(e *vfEnv, r *vfResult, idx int) {
 	if t.ABudgetLarge {
 		mb = 1000
 	}
+	// one session in four signals (some of) the candidates before Dial/Accept, as applications that exchange a complete
+	// offer/answer do: those pairs are formed before the agent knows its role
+	var pending []vfPendingSignal
+	var err error
+	preStart := s.rng.IntN(4) == 0
+	if preStart {
+		s.beforeStart = func() {
+			if pending, err = s.signalList(t); err != nil {
+				return
+			}
+			nUp := s.rng.IntN(len(pending) + 1)
+			for _, p := range pending[:nUp] {
+				s.step("addremote-before-start", p.to.name, 0, p.desc)
+				p.to.addRemote(p.cand)
+			}
+			pending = pending[nUp:]
+		}
+	}
 	if err := s.setupPair(t, vfSideCfg{MaxBinding: mb, TieBreaker: 1000 + uint64(s.rng.IntN(1000))}, vfSideCfg{MaxBinding: mb, TieBreaker: 5000 + uint64(s.rng.IntN(1000))}, true, false); err != nil { //nolint:gosec
 		r.inconclusive(1)
 		r.note("setup failed: %v", err)
 
 		return
 	}
-	pending, err := s.signalList(t)
+	if !preStart {
+		pending, err = s.signalList(t)
+	}
 	if err != nil {
 		r.inconclusive(1)
 
 		return
 	}
 	s.noPairPossible = len(reach) == 0
-	// some candidates are signalled before any check, the rest trickles during the chaos phase
-	nUp := s.rng.IntN(len(pending) + 1)
-	for _, p := range pending[:nUp] {
-		s.step("addremote", p.to.name, 0, p.desc)
-		p.to.addRemote(p.cand)
+	if preStart {
+		r.count("sessions_signalled_before_start", 1)
 		s.afterStep()
+	} else {
+		// some candidates are signalled before any check, the rest trickles during the chaos phase
+		nUp := s.rng.IntN(len(pending) + 1)
+		for _, p := range pending[:nUp] {
+			s.step("addremote", p.to.name, 0, p.desc)
+			p.to.addRemote(p.cand)
+			s.afterStep()
+		}
+		pending = pending[nUp:]
 	}
-	pending = pending[nUp:]
 	budget := map[*vfSide]int{s.A: 3, s.B: 3}
 	chaosN := s.rng.IntN(60)
 	if mb == 1000 {
